@@ -28,3 +28,47 @@ Definition check_sheet (rs : list (Z * Z)) : Z * list (option Z) := pass1 rs 0.
 
 (* guarded lookups: an index taken from the file selects an entry only when it is one *)
 Definition lookup_guard (idx n : Z) : option Z := if (0 <=? idx) && (idx <? n) then Some idx else None.
+
+(* ---------- rows.go:checkRow on one row, over arbitrary cell references ----------
+   A cell is given by the column its r attribute names (already validated by CellNameToCoordinates: 1..MaxColumns)
+   or None when it has no r attribute.  First loop: cells without r get the running column; the running column
+   jumps to any larger r.  Second step: when there are fewer cells than the target width the row is rebuilt as
+   [width] filler cells and every source cell is stored at index column-1 - a Go index expression, which panics
+   outside the slice.  [width_rule] is how the width is taken: from the LAST cell (the rule before repair) or as the
+   largest column of the row (after repair). *)
+Fixpoint assign_cols (cells : list (option Z)) (rcount : Z) : list Z :=
+  match cells with
+  | [] => []
+  | c :: rest =>
+    let rc := rcount + 1 in
+    match c with
+    | Some col => col :: assign_cols rest (if rc <? col then col else rc)
+    | None => rc :: assign_cols rest rc
+    end
+  end.
+
+Definition width_last (cols : list Z) : Z := last cols 0.
+Definition width_max (cols : list Z) : Z := fold_right Z.max 0 cols.
+
+(* target.[col-1] := source cell k; Panic 1 = index out of range *)
+Fixpoint place_cells (cols : list Z) (k : nat) (target : list (option nat)) : res (list (option nat)) :=
+  match cols with
+  | [] => Ok target
+  | col :: rest =>
+    if (1 <=? col) && (col <=? Z.of_nat (length target)) then
+      place_cells rest (S k) (firstn (Z.to_nat (col - 1)) target ++ Some k :: skipn (Z.to_nat col) target)
+    else Panic 1
+  end.
+
+Fixpoint ident_placement (n k : nat) : list (option nat) :=
+  match n with O => [] | S m => Some k :: ident_placement m (S k) end.
+
+(* result: for every cell of the row after checkRow, the source cell it holds (None: a filler) *)
+Definition check_row_with (width_rule : list Z -> Z) (cells : list (option Z)) : res (list (option nat)) :=
+  let cols := assign_cols cells 0 in
+  let w := width_rule cols in
+  if Z.of_nat (length cells) <? w then place_cells cols O (repeat None (Z.to_nat w))
+  else Ok (ident_placement (length cells) O).
+
+Definition check_row : list (option Z) -> res (list (option nat)) := check_row_with width_max.
+Definition check_row_before_repair : list (option Z) -> res (list (option nat)) := check_row_with width_last.
